@@ -22,7 +22,7 @@ LEVEL = "translation_validation"
 CLAUSES = ["SimValue", "RoundTrip", "Compose", "Dimensionless", "DerivedAttr", "DerivedConv", "MatConverted", "MatBack"]
 G = 180.0 / math.pi
 RTOL = 1e-12
-B5 = np.arange(-70, 71)
+B5 = np.arange(-110, 111)
 P5 = np.array([float(Fraction(5) ** int(b)) for b in B5])
 ATTRS = ["m", "s", "kg", "K", "mol", "rad", "Pa", "J", "N", "W", "degree"]
 MATERIALS = ["FluidComponent", "SolidConstants", "FractureDamageSolidConstants", "NumericalConstants",
